@@ -207,7 +207,7 @@ func c17Scenarios(tier string) []*Scenario {
 					global = append(global, "environment:", "  - 'VHX=global'", "  - 'VHG=g'")
 				}
 				if ecmd {
-					global = append(global, "env_cmds:", "  VHX: \"envcmd-x\"", "  VHE: \"envcmd-e\"")
+					global = append(global, "env_cmds:", "  VHX: \"envcmd-x\"", "  VHE: \"envcmd-e\"", "  VHZ: \"envcmd-empty\"")
 				}
 				pc := PC{Name: "p", Lines: []string{"working_dir: \"/\""}}
 				if tty {
@@ -226,7 +226,7 @@ func c17Scenarios(tier string) []*Scenario {
 					YAML:       projectYAML(global, pc),
 					Procs:      map[string]*ProcScript{"p": {Launches: exits(1, 0)}},
 					TickBudget: 2,
-					EnvCmdOut:  map[string]string{"envcmd-x": "fromcmd\n", "envcmd-e": "e\n"},
+					EnvCmdOut:  map[string]string{"envcmd-x": "fromcmd\n", "envcmd-e": "e\n", "envcmd-empty": "\n"},
 					K:          0,
 					Env:        map[string]string{},
 				}
@@ -234,6 +234,7 @@ func c17Scenarios(tier string) []*Scenario {
 					sc.Env["VHX"] = "inherited"
 				}
 				sc.Env["VHI"] = "i"
+				sc.Env["VHZ"] = "inherited-z" // an env_cmds command that prints nothing defines the variable as empty
 				if nested {
 					sc.Env["PC_PROC_NAME"] = "outer"
 					sc.Env["PC_REPLICA_NUM"] = "7"
@@ -292,6 +293,9 @@ func c17Scenarios(tier string) []*Scenario {
 						}
 						if per && e["VHP"] != "p" {
 							vs = append(vs, viol("C17", "precedence:per-process-lost", "per-process variable VHP missing"))
+						}
+						if z, ok := e["VHZ"]; ecmd && (!ok || z != "") {
+							vs = append(vs, viol("C17", "precedence:env_cmds-empty", "env_cmds variable VHZ (its command prints nothing) is %q, defined=%v; want defined and empty, over the inherited value", z, ok))
 						}
 						if ecmd && e["VHE"] != "e" {
 							vs = append(vs, viol("C17", "precedence:env_cmds-lost", "env_cmds variable VHE=%q, want \"e\"", e["VHE"]))
